@@ -149,6 +149,23 @@ def _tlc_cmd(spec, cfg, workers, extra, metadir, heap="4g"):
     return cmd
 
 
+def tlc_unquote(line):
+    """TLC prints a string value with surrounding quotes and \\-escapes"""
+    body = line[1:-1]
+    out = []
+    i = 0
+    while i < len(body):
+        c = body[i]
+        if c == "\\" and i + 1 < len(body):
+            n = body[i + 1]
+            out.append({"n": "\n", "t": "\t", "r": "\r", "f": "\f"}.get(n, n))
+            i += 2
+        else:
+            out.append(c)
+            i += 1
+    return "".join(out)
+
+
 class TlcResult:
     def __init__(self, out, rc, wall):
         self.out = out
@@ -167,10 +184,10 @@ class TlcResult:
         self.error = "Error:" in out
         self.finished = "Model checking completed" in out or "Finished in" in out
         self.prints = []
-        # PrintT of a tuple prints as <<"TAG", ...>>
+        # PrintT("TAG|...") prints one quoted string per line
         for line in out.split("\n"):
-            if line.startswith("<<\""):
-                self.prints.append(line)
+            if len(line) >= 2 and line[0] == '"' and line[-1] == '"' and "|" in line:
+                self.prints.append(tlc_unquote(line))
 
     def coverage_zero(self):
         """actions with zero count under -coverage (vacuity guard)"""
@@ -228,12 +245,10 @@ def tlc_export(spec, cfg, tag="REPLAY", workers=1, timeout=1800, extra=(), env=N
         sys.stderr.write(r.out[-4000:])
         raise ToolError("generator %s/%s failed" % (spec, cfg))
     out = []
-    pre = '<<"%s", "' % tag
+    pre = tag + "|"
     for line in r.prints:
-        if line.startswith(pre) and line.endswith('">>'):
-            body = line[len(pre):-3]
-            body = body.encode("utf-8").decode("unicode_escape") if "\\" in body else body
-            out.append(json.loads(body))
+        if line.startswith(pre):
+            out.append(json.loads(line[len(pre):]))
     return out, r
 
 
@@ -284,16 +299,19 @@ def tlc_validate(spec, cfg, records, shards=None, timeout=1800, env=None, tag="t
     wall = 0.0
     for (fn, n), r in zip(files, results):
         summ = None
+        nb = 0
         for line in r.prints:
-            m = re.match(r'<<"BAD", (.*)>>$', line)
-            if m:
-                body = m.group(1)
-                mm = re.match(r'("?[^,"]*"?), (.*)$', body)
-                rid = mm.group(1).strip('"')
-                bad.setdefault(rid, []).append(mm.group(2))
-            m = re.match(r'<<"SUMMARY", (\d+), (\d+)>>', line)
-            if m:
-                summ = (int(m.group(1)), int(m.group(2)))
+            if line.startswith("BAD|"):
+                _, rid, reasons = line.split("|", 2)
+                bad.setdefault(rid, []).append(reasons)
+                if not rid.startswith("DEV:"):
+                    nb += 1
+            elif line.startswith("SUMMARY|"):
+                p = line.split("|")
+                summ = (int(p[1]), int(p[2]))
+        if summ is not None and summ[1] != nb:
+            sys.stderr.write(r.out[-3000:])
+            raise ToolError("trace spec %s reported %d rejected records but %d BAD lines were parsed" % (spec, summ[1], nb))
         if summ is None or summ[0] != n or r.violation or not r.finished:
             sys.stderr.write(r.out[-5000:])
             raise ToolError("trace spec %s did not consume shard %s (%r of %d)" % (spec, fn, summ, n))
@@ -369,7 +387,7 @@ class Verdict:
             print("KNOWN-FINDING: property=%s %s %s (%d case%s%s)" % (
                 self.prop, fid, what, n, "" if n == 1 else "s", ("; e.g. " + json.dumps(ex)[:300]) if ex is not None else ""))
         seen = set()
-        for summary, path in self.violations[:50]:
+        for summary, path in self.violations[:20]:
             print("VIOLATION property=%s replay=%s %s" % (self.prop, path, summary[:400]))
         if self.violations:
             print("%d violation(s) of %s" % (len(self.violations), self.prop))
